@@ -1687,11 +1687,15 @@ class DecayGroup(BaseDecayGroup, AmpBase):
             yield None
         else:
             old_chains_idx = self.chains_idx
-            for i in old_chains_idx:
-                self.set_used_chains([i])
-                for j in self.chains[i].factor_iteration(deep=deep - 1):
-                    yield self.chains[i], j
-            self.chains_idx = old_chains_idx
+            old_not_full = self.not_full
+            try:
+                for i in old_chains_idx:
+                    self.set_used_chains([i])
+                    for j in self.chains[i].factor_iteration(deep=deep - 1):
+                        yield self.chains[i], j
+            finally:
+                self.chains_idx = old_chains_idx
+                self.not_full = old_not_full
 
     def get_amp(self, data):
         """
@@ -2068,11 +2072,13 @@ class DecayGroup(BaseDecayGroup, AmpBase):
     @contextlib.contextmanager
     def temp_used_res(self, res):
         old_idx = self.chains_idx
+        old_not_full = self.not_full
         self.set_used_res(res)
         try:
             yield
         finally:
             self.chains_idx = old_idx
+            self.not_full = old_not_full
 
     def add_used_chains(self, used_chains):
         for i in used_chains:
@@ -2095,11 +2101,13 @@ class DecayGroup(BaseDecayGroup, AmpBase):
             combine = [[i] for i in range(len(chains))]
         o_used_chains = self.chains_idx
         weights = []
-        for i in combine:
-            self.set_used_res(i)
-            weight = self.sum_amp(data)
-            weights.append(weight)
-        self.set_used_chains(o_used_chains)
+        try:
+            for i in combine:
+                self.set_used_res(i)
+                weight = self.sum_amp(data)
+                weights.append(weight)
+        finally:
+            self.set_used_chains(o_used_chains)
         return weights
 
     def chains_particle(self):
@@ -2113,11 +2121,13 @@ class DecayGroup(BaseDecayGroup, AmpBase):
         combine = combinations(range(len(chains)), 2)
         o_used_chains = self.chains_idx
         weights = {}
-        for i in combine:
-            self.set_used_chains(i)
-            weight = self.sum_amp(data)
-            weights[i] = weight
-        self.set_used_chains(o_used_chains)
+        try:
+            for i in combine:
+                self.set_used_chains(i)
+                weight = self.sum_amp(data)
+                weights[i] = weight
+        finally:
+            self.set_used_chains(o_used_chains)
         return weights
 
     def generate_phasespace(self, num=100000):
